@@ -114,12 +114,13 @@ Proof. intros b H. unfold qmin. apply Qle_bool_iff in H. rewrite H. reflexivity.
 
 (* the power after the output VOA never exceeds p_max once design is through: the saturation test of a redesign
    finds nothing to reduce *)
-Lemma headroom : forall pt pmax pr v m margin rf,
-  (pr <= pmax - pt)%Q -> (pr <= 0)%Q -> ((pr < 0)%Q -> (m <= 0)%Q) -> (m <= pmax - pt)%Q -> (rf - margin <= m)%Q ->
-  v = qmax (rf - margin) 0 -> (pt + pr + v <= pmax)%Q.
+Lemma headroom : forall pt pmax pr v m x,
+  (pr <= pmax - pt)%Q -> (pr <= 0)%Q -> ((pr < 0)%Q -> (m <= 0)%Q) -> (m <= pmax - pt)%Q ->
+  v = qmax (qmin x m) 0 -> (pt + pr + v <= pmax)%Q.
 Proof.
-  intros pt pmax pr v m margin rf H1 H2 H3 H4 H5 Hv.
-  destruct (qmax_cases (rf - margin) 0) as [[E _]|[E Hpos]]; rewrite E in Hv; subst v; [lra|].
+  intros pt pmax pr v m x H1 H2 H3 H4 Hv.
+  pose proof (qmin_r x m) as Hm.
+  destruct (qmax_cases (qmin x m) 0) as [[E _]|[E Hpos]]; rewrite E in Hv; subst v; [lra|].
   destruct (Qlt_le_dec pr 0) as [Hn|Hp]; [specialize (H3 Hn); lra|].
   assert (pr == 0)%Q by lra. lra.
 Qed.
@@ -129,11 +130,9 @@ Definition oQeq (a b : option Q) : Prop :=
 Lemma oqred_eq : forall a b, oQeq a b -> oqred a = oqred b.
 Proof. intros [x|] [y|] H; cbn in *; try contradiction; [f_equal; apply Qred_complete; exact H | reflexivity]. Qed.
 
-(* hypotheses of the power-mode theorems, bundled:
-   power mode; target_extended_gain >= 0; the VOA rounding never exceeds the headroom it is computed from
-   (voa_margin >= voa_step / 2, see r2f_margin); no library entry is called "" *)
+(* hypotheses of the power-mode theorems, bundled: power mode; target_extended_gain >= 0; no library entry is called "" *)
 Definition pm_ok (s : scfg) (lib : string -> option alib) : Prop :=
-  s_pm s = true /\ (0 <= s_ext s)%Q /\ (forall x, (r2f x (s_vstep s) - s_margin s <= x)%Q) /\ lib ""%string = None.
+  s_pm s = true /\ (0 <= s_ext s)%Q /\ lib ""%string = None.
 
 Lemma amp_gd_pm : forall s D x a, s_pm s = true ->
   amp_gd s D x a = ((x_loss x + amp_dp0 s x a - D + otru (i_invoa a))%Q, amp_dp0 s x a).
@@ -144,7 +143,7 @@ Lemma amp_headroom : forall s lib D x a b, pm_ok s lib ->
   let gd := amp_gd s D x a in let pr := amp_pr s D x a b gd in
   (x_ptot x + (snd gd + pr + snd (amp_voa s x a b gd pr)) <= b_pmax b)%Q.
 Proof.
-  intros s lib D x a b (Hpm & Hext & Hvoa & _). cbn zeta. rewrite (amp_gd_pm s D x a Hpm). cbn [fst snd].
+  intros s lib D x a b (Hpm & Hext & _). cbn zeta. rewrite (amp_gd_pm s D x a Hpm). cbn [fst snd].
   set (dp0 := amp_dp0 s x a). set (gain0 := (x_loss x + dp0 - D + otru (i_invoa a))%Q).
   set (pt := (x_ptot x + dp0)%Q).
   set (pr := amp_pr s D x a b (gain0, dp0)).
@@ -166,8 +165,8 @@ Proof.
   unfold amp_voa. cbn [fst snd]. fold pt. rewrite Hpm. destruct (i_voa a) as [v|]; cbn [snd andb].
   - unfold pt in *. lra.
   - destruct (b_vauto b); cbn [snd]; [|unfold pt in *; lra].
-    pose proof (headroom pt (b_pmax b) pr _ (qmin (b_pmax b - pt) (b_gfm b - (gain0 + pr))) (s_margin s)
-                  (r2f (qmin (b_pmax b - pt) (b_gfm b - (gain0 + pr))) (s_vstep s)) Hpr1 Hpr0 Hneg (qmin_l _ _) (Hvoa _) eq_refl) as K.
+    pose proof (headroom pt (b_pmax b) pr _ (qmin (b_pmax b - pt) (b_gfm b - (gain0 + pr)))
+                  (r2f (qmin (b_pmax b - pt) (b_gfm b - (gain0 + pr))) (s_vstep s) - s_margin s) Hpr1 Hpr0 Hneg (qmin_l _ _) eq_refl) as K.
     unfold pt in *. lra.
 Qed.
 
@@ -178,7 +177,7 @@ Lemma design_amp_fix : forall s lib sel D D2 x a o D1, pm_ok s lib ->
   exists o' D1', design_amp s lib sel D2 x (export_amp o) = Ok (o', D1') /\ (D1' == D1)%Q /\
     export_amp o' = export_amp o.
 Proof.
-  intros s lib sel D D2 x a o D1 Hok HD H. pose proof Hok as (Hpm & Hext & Hvoa & Hlib).
+  intros s lib sel D D2 x a o D1 Hok HD H. pose proof Hok as (Hpm & Hext & Hlib).
   unfold design_amp in H. destruct (lib (amp_var sel a)) as [b|] eqn:Elib; [|discriminate].
   pose proof (amp_headroom s lib D x a b Hok) as K. cbn zeta in K.
   set (gd := amp_gd s D x a) in *. set (pr := amp_pr s D x a b gd) in *. set (vv := amp_voa s x a b gd pr) in *.
@@ -260,7 +259,7 @@ Proof.
   cbn [amp_rounds]. rewrite (amp_round_fix s lib sel D ctxs ins j1 Hok Hlen H). cbn [bind]. exact IH.
 Qed.
 
-(* the VOA hypothesis of pm_ok holds whenever the (rounded) step is at most twice the margin *)
+(* round2float: the rounded value minus a margin of at least half a (rounded) step never exceeds the value *)
 Lemma r2f_margin : forall step margin x,
   (1 # 100 <= round_dec 1 step)%Q -> (round_dec 1 step <= 2 * margin)%Q -> (r2f x step - margin <= x)%Q.
 Proof.
@@ -357,13 +356,11 @@ Proof.
   - inversion H; subst r'. unfold pad_run. rewrite El. reflexivity.
 Qed.
 
-(* F20: the span loss cached for the amplifier design counts a pre-existing att_in twice when padding is added;
-   it agrees with the padded span exactly when the first fibre had no att_in or no padding was needed *)
+(* the span loss cached for the amplifier design is the loss of the padded span (after gnpy fix 13a35c31) *)
 Lemma run_dsl_spec : forall c r r', pad_run c r = Ok r' -> last_plain_fib r = true -> has_raman r = false ->
-  ((c_pad c <= run_loss r)%Q \/ match r with Fib g :: _ => (f_att g == 0)%Q | _ => True end) ->
   (run_dsl c r == run_loss r')%Q.
 Proof.
-  intros c r r' H Hl Hr Hc. unfold run_dsl.
+  intros c r r' H Hl Hr. unfold run_dsl.
   destruct (pad_run_shape c r r' H) as [E|(g & t & E1 & E2 & Hlt)].
   - subst r'. destruct (Qltb (run_loss r) (c_pad c)) eqn:E; [|reflexivity].
     (* below the padding but unchanged: only when the first element is not a fibre *)
@@ -374,15 +371,16 @@ Proof.
     exfalso. inversion H as [H1]. apply (f_equal f_att) in H1.
     cbn [f_att] in H1. apply Qltb_lt in E.
     assert (Hq : (f_att g + (c_pad c - run_loss (Fib g :: t)) == f_att g)%Q) by (rewrite H1; reflexivity). lra.
-  - subst r r'. apply Qltb_lt in Hlt. rewrite Hlt. rewrite fib_loss_bump.
-    destruct Hc as [Hc|Hc]; [apply Qltb_lt in Hlt; lra|]. rewrite Hc. ring.
+  - subst r r'. apply Qltb_lt in Hlt. rewrite Hlt. rewrite fib_loss_bump. ring.
 Qed.
-Lemma redesign_att_in_refuted : exists c r r',
-  pad_run c r = Ok r' /\ last_plain_fib r = true /\ (run_dsl c r == c_pad c + 2)%Q /\ (run_dsl c r' == c_pad c)%Q.
+(* hence the redesign of an exported padded span sees the same loss as the first design *)
+Lemma run_dsl_stable : forall c r r', pad_run c r = Ok r' -> (run_dsl c r' == run_dsl c r)%Q.
 Proof.
-  exists (mkCfg 150000 50000 10 0 0 0),
-         [Fib (mkFib "f" false (inject_Z 20000) (1 # 5000) (Some 0%Q) (Some 0%Q) 2 [])]. eexists.
-  split; [vm_compute; reflexivity|]. split; [reflexivity|]. split; vm_compute; reflexivity.
+  intros c r r' H. destruct (pad_run_shape c r r' H) as [E|(g & t & E1 & E2 & Hlt)]; [subst r'; reflexivity|].
+  subst r r'. unfold run_dsl.
+  assert (Hge : Qltb (run_loss (bump (Fib g) (c_pad c - run_loss (Fib g :: t)) :: t)) (c_pad c) = false).
+  { apply Qltb_ge. rewrite fib_loss_bump. ring_simplify. apply Qle_refl. }
+  rewrite Hge. apply Qltb_lt in Hlt. rewrite Hlt. rewrite fib_loss_bump. reflexivity.
 Qed.
 (* F19: lumped losses do not survive the export *)
 Lemma export_drops_lumped : forall f, f_lumped (export_fib f) = [].
@@ -402,19 +400,6 @@ Proof.
   - apply Qred_complete. apply Qred_correct.
 Qed.
 
-(* voa_margin below voa_step / 2: the output VOA overshoots the headroom and a redesign reduces the power (finding F21) *)
-Definition w_s : scfg := mkS true (-2) 3 (1 # 2) (3 # 10) 20 0 (1 # 2) (5 # 2).
-Definition w_lib (v : string) : option alib := if String.eqb v "amp" then Some (mkLib 21 25 true) else None.
-Lemma redesign_voa_margin_refuted : exists x a o D1 o' D1',
-  design_amp w_s w_lib (fun _ => "amp"%string) 0 x a = Ok (o, D1) /\
-  design_amp w_s w_lib (fun _ => "amp"%string) 0 x (export_amp o) = Ok (o', D1') /\
-  ~ (o_gain o' == o_gain o)%Q /\ i_dp (export_amp o') <> i_dp (export_amp o).
-Proof.
-  exists (mkX (203 # 10) NRoadm (207 # 10)), (mkIn "a" "amp" None None None None None).
-  eexists. eexists. eexists. eexists.
-  split; [vm_compute; reflexivity|]. split; [vm_compute; reflexivity|]. split; vm_compute; congruence.
-Qed.
-
 (* ---------- non-vacuity ---------- *)
 Definition ex_s : scfg := mkS true (-2) 3 (1 # 2) (3 # 10) 20 1 (1 # 2) (5 # 2).
 Definition ex_lib (v : string) : option alib :=
@@ -422,8 +407,7 @@ Definition ex_lib (v : string) : option alib :=
   else if String.eqb v "std_medium_gain" then Some (mkLib 23 26 false) else None.
 Example ex_pm_ok : pm_ok ex_s ex_lib.
 Proof.
-  unfold pm_ok. split; [reflexivity|]. split; [vm_compute; congruence|]. split; [|reflexivity].
-  intro x. apply r2f_margin; vm_compute; congruence.
+  unfold pm_ok. split; [reflexivity|]. split; [vm_compute; congruence | reflexivity].
 Qed.
 Definition ex_items : list (actx * ain) :=
   [(mkX 0 (NLoss (165 # 10)) (198 # 10), mkIn "booster" "" None None None None None);
